@@ -19,6 +19,10 @@ type Obligation struct {
 	Info   string
 	Func   string
 	Expect string // "unsat" normally; "sat" for vacuity canaries
+	// PrePrefix > 0: an after-call canary. If the state after assuming the callee's contract is
+	// unsatisfiable, the state just before it (PrePrefix lines) is tried: only when that one is
+	// satisfiable does the assumed contract contradict the caller's state (a dead path is not an alarm).
+	PrePrefix int
 	Raw    string // complete SMT text (lemmas) when non-empty
 }
 
@@ -193,6 +197,13 @@ func (vc *VC) strDecls() string {
 	}
 	// concatenation facts between literals that are prefixes of each other are not derived.
 	return b.String()
+}
+
+func (vc *VC) renderPre(prelude string, o *Obligation) string {
+	c := *o
+	c.Prefix = o.PrePrefix
+	c.PrePrefix = 0
+	return vc.render(prelude, &c)
 }
 
 func (vc *VC) render(prelude string, o *Obligation) string {
